@@ -1075,6 +1075,9 @@ func decodeRawPacketFlowRecord(data *[]byte) (SFlowRawPacketFlowRecord, error) {
 	header := []byte{}
 	var fdf SFlowFlowDataFormat
 
+	if len(*data) < 24 {
+		return SFlowRawPacketFlowRecord{}, errors.New("raw packet flow record too small")
+	}
 	*data, fdf = (*data)[4:], SFlowFlowDataFormat(binary.BigEndian.Uint32((*data)[:4]))
 	rec.EnterpriseID, rec.Format = fdf.decode()
 	*data, rec.FlowDataLength = (*data)[4:], binary.BigEndian.Uint32((*data)[:4])
@@ -1083,6 +1086,11 @@ func decodeRawPacketFlowRecord(data *[]byte) (SFlowRawPacketFlowRecord, error) {
 	*data, rec.PayloadRemoved = (*data)[4:], binary.BigEndian.Uint32((*data)[:4])
 	*data, rec.HeaderLength = (*data)[4:], binary.BigEndian.Uint32((*data)[:4])
 	headerLenWithPadding := int(rec.HeaderLength + ((4 - rec.HeaderLength) % 4))
+	// HeaderLength is read from the packet: the header and its padding to
+	// a multiple of 4 bytes must both fit into the remaining bytes.
+	if rec.HeaderLength > uint32(len(*data)) || headerLenWithPadding > len(*data) {
+		return SFlowRawPacketFlowRecord{}, fmt.Errorf("raw packet flow record header length %d exceeds remaining buffer", rec.HeaderLength)
+	}
 	*data, header = (*data)[headerLenWithPadding:], (*data)[:headerLenWithPadding]
 	rec.Header = gopacket.NewPacket(header, LayerTypeEthernet, gopacket.Default)
 	return rec, nil
@@ -1121,6 +1129,9 @@ func decodeExtendedSwitchFlowRecord(data *[]byte) (SFlowExtendedSwitchFlowRecord
 	es := SFlowExtendedSwitchFlowRecord{}
 	var fdf SFlowFlowDataFormat
 
+	if len(*data) < 24 {
+		return SFlowExtendedSwitchFlowRecord{}, errors.New("extended switch flow record too small")
+	}
 	*data, fdf = (*data)[4:], SFlowFlowDataFormat(binary.BigEndian.Uint32((*data)[:4]))
 	es.EnterpriseID, es.Format = fdf.decode()
 	*data, es.FlowDataLength = (*data)[4:], binary.BigEndian.Uint32((*data)[:4])
@@ -1164,10 +1175,17 @@ func decodeExtendedRouterFlowRecord(data *[]byte) (SFlowExtendedRouterFlowRecord
 	var fdf SFlowFlowDataFormat
 	var extendedRouterAddressType SFlowIPType
 
+	if len(*data) < 12 {
+		return SFlowExtendedRouterFlowRecord{}, errors.New("extended router flow record too small")
+	}
 	*data, fdf = (*data)[4:], SFlowFlowDataFormat(binary.BigEndian.Uint32((*data)[:4]))
 	er.EnterpriseID, er.Format = fdf.decode()
 	*data, er.FlowDataLength = (*data)[4:], binary.BigEndian.Uint32((*data)[:4])
 	*data, extendedRouterAddressType = (*data)[4:], SFlowIPType(binary.BigEndian.Uint32((*data)[:4]))
+	// next hop address + source mask + destination mask
+	if len(*data) < extendedRouterAddressType.Length()+8 {
+		return SFlowExtendedRouterFlowRecord{}, errors.New("extended router flow record too small")
+	}
 	*data, er.NextHop = (*data)[extendedRouterAddressType.Length():], (*data)[:extendedRouterAddressType.Length()]
 	*data, er.NextHopSourceMask = (*data)[4:], binary.BigEndian.Uint32((*data)[:4])
 	*data, er.NextHopDestinationMask = (*data)[4:], binary.BigEndian.Uint32((*data)[:4])
@@ -1280,6 +1298,9 @@ func (asd SFlowASDestination) String() string {
 }
 
 func (ad *SFlowASDestination) decodePath(data *[]byte) error {
+	if len(*data) < 8 {
+		return errors.New("SFlow AS path too small")
+	}
 	*data, ad.Type = (*data)[4:], SFlowASPathType(binary.BigEndian.Uint32((*data)[:4]))
 	*data, ad.Count = (*data)[4:], binary.BigEndian.Uint32((*data)[:4])
 	// ad.Count is an attacker-controlled 32-bit field and each member that
@@ -1305,10 +1326,17 @@ func decodeExtendedGatewayFlowRecord(data *[]byte) (SFlowExtendedGatewayFlowReco
 	var communitiesLength uint32
 	var community uint32
 
+	if len(*data) < 12 {
+		return SFlowExtendedGatewayFlowRecord{}, errors.New("extended gateway flow record too small")
+	}
 	*data, fdf = (*data)[4:], SFlowFlowDataFormat(binary.BigEndian.Uint32((*data)[:4]))
 	eg.EnterpriseID, eg.Format = fdf.decode()
 	*data, eg.FlowDataLength = (*data)[4:], binary.BigEndian.Uint32((*data)[:4])
 	*data, extendedGatewayAddressType = (*data)[4:], SFlowIPType(binary.BigEndian.Uint32((*data)[:4]))
+	// next hop address + AS + source AS + peer AS + AS path count
+	if len(*data) < extendedGatewayAddressType.Length()+16 {
+		return SFlowExtendedGatewayFlowRecord{}, errors.New("extended gateway flow record too small")
+	}
 	*data, eg.NextHop = (*data)[extendedGatewayAddressType.Length():], (*data)[:extendedGatewayAddressType.Length()]
 	*data, eg.AS = (*data)[4:], binary.BigEndian.Uint32((*data)[:4])
 	*data, eg.SourceAS = (*data)[4:], binary.BigEndian.Uint32((*data)[:4])
@@ -1320,6 +1348,9 @@ func decodeExtendedGatewayFlowRecord(data *[]byte) (SFlowExtendedGatewayFlowReco
 			return eg, err
 		}
 		eg.ASPath = append(eg.ASPath, asPath)
+	}
+	if len(*data) < 4 {
+		return eg, errors.New("extended gateway flow record too small")
 	}
 	*data, communitiesLength = (*data)[4:], binary.BigEndian.Uint32((*data)[:4])
 	// communitiesLength is an attacker-controlled 32-bit field and each
@@ -1334,6 +1365,9 @@ func decodeExtendedGatewayFlowRecord(data *[]byte) (SFlowExtendedGatewayFlowReco
 	for j := uint32(0); j < communitiesLength; j++ {
 		*data, community = (*data)[4:], binary.BigEndian.Uint32((*data)[:4])
 		eg.Communities[j] = community
+	}
+	if len(*data) < 4 {
+		return eg, errors.New("extended gateway flow record too small")
 	}
 	*data, eg.LocalPref = (*data)[4:], binary.BigEndian.Uint32((*data)[:4])
 	return eg, nil
@@ -1391,16 +1425,30 @@ func decodeExtendedURLRecord(data *[]byte) (SFlowExtendedURLRecord, error) {
 	var urlBytes []byte
 	var hostBytes []byte
 
+	if len(*data) < 16 {
+		return SFlowExtendedURLRecord{}, errors.New("extended URL flow record too small")
+	}
 	*data, fdf = (*data)[4:], SFlowFlowDataFormat(binary.BigEndian.Uint32((*data)[:4]))
 	eur.EnterpriseID, eur.Format = fdf.decode()
 	*data, eur.FlowDataLength = (*data)[4:], binary.BigEndian.Uint32((*data)[:4])
 	*data, eur.Direction = (*data)[4:], SFlowURLDirection(binary.BigEndian.Uint32((*data)[:4]))
 	*data, urlLen = (*data)[4:], binary.BigEndian.Uint32((*data)[:4])
 	urlLenWithPad = int(urlLen + ((4 - urlLen) % 4))
+	// urlLen is read from the packet: the URL and its padding to a multiple
+	// of 4 bytes must both fit into the remaining bytes.
+	if urlLen > uint32(len(*data)) || urlLenWithPad > len(*data) {
+		return SFlowExtendedURLRecord{}, fmt.Errorf("extended URL flow record URL length %d exceeds remaining buffer", urlLen)
+	}
 	*data, urlBytes = (*data)[urlLenWithPad:], (*data)[:urlLenWithPad]
 	eur.URL = string(urlBytes[:urlLen])
+	if len(*data) < 4 {
+		return SFlowExtendedURLRecord{}, errors.New("extended URL flow record too small")
+	}
 	*data, hostLen = (*data)[4:], binary.BigEndian.Uint32((*data)[:4])
 	hostLenWithPad = int(hostLen + ((4 - hostLen) % 4))
+	if hostLen > uint32(len(*data)) || hostLenWithPad > len(*data) {
+		return SFlowExtendedURLRecord{}, fmt.Errorf("extended URL flow record host length %d exceeds remaining buffer", hostLen)
+	}
 	*data, hostBytes = (*data)[hostLenWithPad:], (*data)[:hostLenWithPad]
 	eur.Host = string(hostBytes[:hostLen])
 	return eur, nil
@@ -1707,17 +1755,31 @@ func decodeExtendedUserFlow(data *[]byte) (SFlowExtendedUserFlow, error) {
 	var dstUserLenWithPad int
 	var dstUserBytes []byte
 
+	if len(*data) < 16 {
+		return SFlowExtendedUserFlow{}, errors.New("extended user flow record too small")
+	}
 	*data, fdf = (*data)[4:], SFlowFlowDataFormat(binary.BigEndian.Uint32((*data)[:4]))
 	eu.EnterpriseID, eu.Format = fdf.decode()
 	*data, eu.FlowDataLength = (*data)[4:], binary.BigEndian.Uint32((*data)[:4])
 	*data, eu.SourceCharSet = (*data)[4:], SFlowCharSet(binary.BigEndian.Uint32((*data)[:4]))
 	*data, srcUserLen = (*data)[4:], binary.BigEndian.Uint32((*data)[:4])
 	srcUserLenWithPad = int(srcUserLen + ((4 - srcUserLen) % 4))
+	// srcUserLen is read from the packet: the user ID and its padding to a
+	// multiple of 4 bytes must both fit into the remaining bytes.
+	if srcUserLen > uint32(len(*data)) || srcUserLenWithPad > len(*data) {
+		return SFlowExtendedUserFlow{}, fmt.Errorf("extended user flow record source user length %d exceeds remaining buffer", srcUserLen)
+	}
 	*data, srcUserBytes = (*data)[srcUserLenWithPad:], (*data)[:srcUserLenWithPad]
 	eu.SourceUserID = string(srcUserBytes[:srcUserLen])
+	if len(*data) < 8 {
+		return SFlowExtendedUserFlow{}, errors.New("extended user flow record too small")
+	}
 	*data, eu.DestinationCharSet = (*data)[4:], SFlowCharSet(binary.BigEndian.Uint32((*data)[:4]))
 	*data, dstUserLen = (*data)[4:], binary.BigEndian.Uint32((*data)[:4])
 	dstUserLenWithPad = int(dstUserLen + ((4 - dstUserLen) % 4))
+	if dstUserLen > uint32(len(*data)) || dstUserLenWithPad > len(*data) {
+		return SFlowExtendedUserFlow{}, fmt.Errorf("extended user flow record destination user length %d exceeds remaining buffer", dstUserLen)
+	}
 	*data, dstUserBytes = (*data)[dstUserLenWithPad:], (*data)[:dstUserLenWithPad]
 	eu.DestinationUserID = string(dstUserBytes[:dstUserLen])
 	return eu, nil
@@ -1769,6 +1831,9 @@ type SFlowIpv4Record struct {
 func decodeSFlowIpv4Record(data *[]byte) (SFlowIpv4Record, error) {
 	si := SFlowIpv4Record{}
 
+	if len(*data) < 32 {
+		return SFlowIpv4Record{}, errors.New("ipv4 record too small")
+	}
 	*data, si.Length = (*data)[4:], binary.BigEndian.Uint32((*data)[:4])
 	*data, si.Protocol = (*data)[4:], binary.BigEndian.Uint32((*data)[:4])
 	*data, si.IPSrc = (*data)[4:], net.IP((*data)[:4])
@@ -1827,6 +1892,9 @@ type SFlowIpv6Record struct {
 func decodeSFlowIpv6Record(data *[]byte) (SFlowIpv6Record, error) {
 	si := SFlowIpv6Record{}
 
+	if len(*data) < 56 {
+		return SFlowIpv6Record{}, errors.New("ipv6 record too small")
+	}
 	*data, si.Length = (*data)[4:], binary.BigEndian.Uint32((*data)[:4])
 	*data, si.Protocol = (*data)[4:], binary.BigEndian.Uint32((*data)[:4])
 	*data, si.IPSrc = (*data)[16:], net.IP((*data)[:16])
@@ -1863,10 +1931,16 @@ func decodeExtendedIpv4TunnelEgress(data *[]byte) (SFlowExtendedIpv4TunnelEgress
 	rec := SFlowExtendedIpv4TunnelEgressRecord{}
 	var fdf SFlowFlowDataFormat
 
+	if len(*data) < 8 {
+		return SFlowExtendedIpv4TunnelEgressRecord{}, errors.New("extended ipv4 tunnel egress record too small")
+	}
 	*data, fdf = (*data)[4:], SFlowFlowDataFormat(binary.BigEndian.Uint32((*data)[:4]))
 	rec.EnterpriseID, rec.Format = fdf.decode()
 	*data, rec.FlowDataLength = (*data)[4:], binary.BigEndian.Uint32((*data)[:4])
-	rec.SFlowIpv4Record, _ = decodeSFlowIpv4Record(data)
+	var err error
+	if rec.SFlowIpv4Record, err = decodeSFlowIpv4Record(data); err != nil {
+		return SFlowExtendedIpv4TunnelEgressRecord{}, err
+	}
 
 	return rec, nil
 }
@@ -1895,10 +1969,16 @@ func decodeExtendedIpv4TunnelIngress(data *[]byte) (SFlowExtendedIpv4TunnelIngre
 	rec := SFlowExtendedIpv4TunnelIngressRecord{}
 	var fdf SFlowFlowDataFormat
 
+	if len(*data) < 8 {
+		return SFlowExtendedIpv4TunnelIngressRecord{}, errors.New("extended ipv4 tunnel ingress record too small")
+	}
 	*data, fdf = (*data)[4:], SFlowFlowDataFormat(binary.BigEndian.Uint32((*data)[:4]))
 	rec.EnterpriseID, rec.Format = fdf.decode()
 	*data, rec.FlowDataLength = (*data)[4:], binary.BigEndian.Uint32((*data)[:4])
-	rec.SFlowIpv4Record, _ = decodeSFlowIpv4Record(data)
+	var err error
+	if rec.SFlowIpv4Record, err = decodeSFlowIpv4Record(data); err != nil {
+		return SFlowExtendedIpv4TunnelIngressRecord{}, err
+	}
 
 	return rec, nil
 }
@@ -1927,10 +2007,16 @@ func decodeExtendedIpv6TunnelEgress(data *[]byte) (SFlowExtendedIpv6TunnelEgress
 	rec := SFlowExtendedIpv6TunnelEgressRecord{}
 	var fdf SFlowFlowDataFormat
 
+	if len(*data) < 8 {
+		return SFlowExtendedIpv6TunnelEgressRecord{}, errors.New("extended ipv6 tunnel egress record too small")
+	}
 	*data, fdf = (*data)[4:], SFlowFlowDataFormat(binary.BigEndian.Uint32((*data)[:4]))
 	rec.EnterpriseID, rec.Format = fdf.decode()
 	*data, rec.FlowDataLength = (*data)[4:], binary.BigEndian.Uint32((*data)[:4])
-	rec.SFlowIpv6Record, _ = decodeSFlowIpv6Record(data)
+	var err error
+	if rec.SFlowIpv6Record, err = decodeSFlowIpv6Record(data); err != nil {
+		return SFlowExtendedIpv6TunnelEgressRecord{}, err
+	}
 
 	return rec, nil
 }
@@ -1959,10 +2045,16 @@ func decodeExtendedIpv6TunnelIngress(data *[]byte) (SFlowExtendedIpv6TunnelIngre
 	rec := SFlowExtendedIpv6TunnelIngressRecord{}
 	var fdf SFlowFlowDataFormat
 
+	if len(*data) < 8 {
+		return SFlowExtendedIpv6TunnelIngressRecord{}, errors.New("extended ipv6 tunnel ingress record too small")
+	}
 	*data, fdf = (*data)[4:], SFlowFlowDataFormat(binary.BigEndian.Uint32((*data)[:4]))
 	rec.EnterpriseID, rec.Format = fdf.decode()
 	*data, rec.FlowDataLength = (*data)[4:], binary.BigEndian.Uint32((*data)[:4])
-	rec.SFlowIpv6Record, _ = decodeSFlowIpv6Record(data)
+	var err error
+	if rec.SFlowIpv6Record, err = decodeSFlowIpv6Record(data); err != nil {
+		return SFlowExtendedIpv6TunnelIngressRecord{}, err
+	}
 
 	return rec, nil
 }
@@ -1990,6 +2082,9 @@ func decodeExtendedDecapsulateEgress(data *[]byte) (SFlowExtendedDecapsulateEgre
 	rec := SFlowExtendedDecapsulateEgressRecord{}
 	var fdf SFlowFlowDataFormat
 
+	if len(*data) < 12 {
+		return SFlowExtendedDecapsulateEgressRecord{}, errors.New("extended decapsulate egress record too small")
+	}
 	*data, fdf = (*data)[4:], SFlowFlowDataFormat(binary.BigEndian.Uint32((*data)[:4]))
 	rec.EnterpriseID, rec.Format = fdf.decode()
 	*data, rec.FlowDataLength = (*data)[4:], binary.BigEndian.Uint32((*data)[:4])
@@ -2023,6 +2118,9 @@ func decodeExtendedDecapsulateIngress(data *[]byte) (SFlowExtendedDecapsulateIng
 	rec := SFlowExtendedDecapsulateIngressRecord{}
 	var fdf SFlowFlowDataFormat
 
+	if len(*data) < 12 {
+		return SFlowExtendedDecapsulateIngressRecord{}, errors.New("extended decapsulate ingress record too small")
+	}
 	*data, fdf = (*data)[4:], SFlowFlowDataFormat(binary.BigEndian.Uint32((*data)[:4]))
 	rec.EnterpriseID, rec.Format = fdf.decode()
 	*data, rec.FlowDataLength = (*data)[4:], binary.BigEndian.Uint32((*data)[:4])
@@ -2056,6 +2154,9 @@ func decodeExtendedVniEgress(data *[]byte) (SFlowExtendedVniEgressRecord, error)
 	rec := SFlowExtendedVniEgressRecord{}
 	var fdf SFlowFlowDataFormat
 
+	if len(*data) < 12 {
+		return SFlowExtendedVniEgressRecord{}, errors.New("extended vni egress record too small")
+	}
 	*data, fdf = (*data)[4:], SFlowFlowDataFormat(binary.BigEndian.Uint32((*data)[:4]))
 	rec.EnterpriseID, rec.Format = fdf.decode()
 	*data, rec.FlowDataLength = (*data)[4:], binary.BigEndian.Uint32((*data)[:4])
@@ -2089,6 +2190,9 @@ func decodeExtendedVniIngress(data *[]byte) (SFlowExtendedVniIngressRecord, erro
 	rec := SFlowExtendedVniIngressRecord{}
 	var fdf SFlowFlowDataFormat
 
+	if len(*data) < 12 {
+		return SFlowExtendedVniIngressRecord{}, errors.New("extended vni ingress record too small")
+	}
 	*data, fdf = (*data)[4:], SFlowFlowDataFormat(binary.BigEndian.Uint32((*data)[:4]))
 	rec.EnterpriseID, rec.Format = fdf.decode()
 	*data, rec.FlowDataLength = (*data)[4:], binary.BigEndian.Uint32((*data)[:4])
@@ -2520,6 +2624,9 @@ func decodeEthernetFrameFlowRecord(data *[]byte) (SFlowEthernetFrameFlowRecord, 
 	es := SFlowEthernetFrameFlowRecord{}
 	var fdf SFlowFlowDataFormat
 
+	if len(*data) < 32 {
+		return SFlowEthernetFrameFlowRecord{}, errors.New("ethernet frame flow record too small")
+	}
 	*data, fdf = (*data)[4:], SFlowFlowDataFormat(binary.BigEndian.Uint32((*data)[:4]))
 	es.EnterpriseID, es.Format = fdf.decode()
 	*data, es.FlowDataLength = (*data)[4:], binary.BigEndian.Uint32((*data)[:4])
